@@ -3,7 +3,8 @@ import sys, os, argparse, importlib, traceback
 from .common import MachineryError, repo_on_path
 
 
-ENV_FLAGS = ["-O", "-W", "error::DeprecationWarning"]
+ENV_FLAGS = ["-O", "-bb", "-W", "error::DeprecationWarning"]
+PURE_TEXT = ("C12", "C10", "C15")
 
 
 def second_pass(pid, tier, cache):
@@ -16,6 +17,10 @@ def second_pass(pid, tier, cache):
     evdir = tempfile.mkdtemp(prefix="verif_pass2_")
     env = dict(os.environ)
     env.update({"VERIF_ENVPASS": " ".join(ENV_FLAGS), "VERIF_TLC_CACHE": cache, "VERIF_EVIDENCE_FILE": os.path.join(evdir, pid + ".json")})
+    if pid in PURE_TEXT:
+        # checks that do no file I/O also run their second pass in the bare C locale without UTF-8 mode: text handling must
+        # not depend on the process's preferred encoding
+        env.update({"LC_ALL": "C", "LANG": "C", "PYTHONUTF8": "0", "PYTHONCOERCECLOCALE": "0", "PYTHONIOENCODING": "utf-8"})
     p = subprocess.run([sys.executable] + ENV_FLAGS + ["-m", "harness.main", pid, "--tier", tier], cwd=VERIF, env=env)
     try:
         outbase = os.environ.get("VERIF_OUT", VERIF)
